@@ -549,6 +549,7 @@ var (
 			"uint8":   Byte,
 			"uintptr": Uintptr,
 			"byte":    Byte,
+			"rune":    Int32,
 			"float":   Float,
 			"float64": Float64,
 			"float32": Float32,
